@@ -85,3 +85,17 @@ PROPS["C06"] = {
     "exhaustive_note": "all strings over the alphabet up to the length recorded in classes.exhaustive_max_len (count in classes.exhaustive_strings_total) were enumerated in every feature build",
     "assumptions": ["reference recogniser vref::sig (checked against libdbus dbus_signature_validate vectors, DESIGN.md A.9)"],
 }
+
+PROPS["C03"] = {
+    "level": "exploration",
+    "plan": zv_plan(["", "option-as-array"], ["", "option-as-array"], ("release", "miri")),
+    "rule": ("reference-marshalled valid encodings of generated signatures/values, 1-2 stacked structure-aware mutations of them "
+             "(each padding byte, length field, terminator, bool word, signature byte, string byte, fd index; truncation, flips, "
+             "splices), random bytes and hand-made invalid vectors, decoded by the library (dynamic targets and 44+8 typed "
+             "shapes) and by the validating reference unmarshaller: accept<=>accept, equal value, equal consumed length; "
+             "distinct = distinct (signature, input kind, verdict class)"),
+    "gates": {"quick": {"evaluations": 100000, "distinct": 3000, "class:both-accept": 20000, "class:both-reject": 20000},
+              "thorough": {"evaluations": 5000000, "distinct": 50000}},
+    "assumptions": ["reference unmarshaller vref::dbus enforces exactly the rejection causes the property lists (plus truncation)",
+                    "value equality is not judged for dicts whose wire form repeats a key; fd indices are checked against the 2 supplied fds"],
+}
